@@ -40,7 +40,7 @@ ASSUMPTIONS = [
 PROBES = ["lazy-element-serialised-unparsed", "restart-with-mixed-parsed-siblings", "looped-awkward-first-in-line",
           "single-row-awkward", "multiline-value", "rejected-op", "restart-refused-invalid-store", "eq-negative"]
 
-BLOCKS = ["b1", "1ABC", "blk_x", "B-2", "", "B1"]  # the empty name (a bare "data_" header) is a name too
+BLOCKS = ["b1", "1ABC", "blk_x", "B-2", "", "B1", "run#1", "run#2"]  # the empty name (a bare "data_" header) is a name too
 # mmCIF data names: identifier-like, but also hyphens, brackets, slashes (e.g. atom_site.aniso_B[1][1]); never a dot or a blank
 CATS = ["atom_site", "cat", "entry", "x_y", "my-cat", "tab[1]", "9lives", "", "CAT", "Entry"]  # keys are case-sensitive
 COLS = ["id", "val", "c3", "label_x", "e", "aniso_B[1][1]", "pdbx-x", "a/b%", "", "ID", "Val"]
